@@ -33,6 +33,7 @@ type c06Op struct {
 	SSRC  uint32 `json:"ssrc,omitempty"` // sr
 	NTP   uint64 `json:"ntp,omitempty"`  // sr
 	OffUs int64  `json:"off_us,omitempty"`
+	Pre   int    `json:"pre,omitempty"` // sr: 1 = a sender report of a foreign SSRC comes first in the same datagram, 2 = a receiver report and an SDES come first, 3 = a foreign sender report follows
 }
 
 type c06 struct{}
@@ -132,7 +133,7 @@ func (c06) Gen(seed int64, tier string, avoid []string) *Plan {
 		if chance(r, 150) {
 			ntp = uint64(r.Uint32()) << 48 // middle 32 bits zero
 		}
-		ops = append(ops, c06Op{K: "sr", AtUs: r.Int63n(end + 1), SSRC: ssrc, NTP: ntp})
+		ops = append(ops, c06Op{K: "sr", AtUs: r.Int63n(end + 1), SSRC: ssrc, NTP: ntp, Pre: pick(r, 0, 0, 1, 1, 2, 3)})
 	}
 	if chance(r, 250) {
 		for i := r.Intn(2) + 1; i > 0; i-- {
@@ -254,7 +255,19 @@ func (c06) Run(e *Env) {
 		o := srOps[sridx]
 		sridx++
 		simrt.SleepUntil(us(o.AtUs))
-		raw, err := rtcp.Marshal([]rtcp.Packet{&rtcp.SenderReport{SSRC: o.SSRC, NTPTime: o.NTP, RTPTime: 1, PacketCount: 2, OctetCount: 3}})
+		batch := []rtcp.Packet{&rtcp.SenderReport{SSRC: o.SSRC, NTPTime: o.NTP, RTPTime: 1, PacketCount: 2, OctetCount: 3}}
+		foreign := &rtcp.SenderReport{SSRC: 515151, NTPTime: ^o.NTP, RTPTime: 7, PacketCount: 8, OctetCount: 9}
+		switch o.Pre {
+		case 1:
+			batch = append([]rtcp.Packet{foreign}, batch...)
+			e.Fault("stacked_sender_reports")
+		case 2:
+			batch = append([]rtcp.Packet{&rtcp.ReceiverReport{SSRC: 515151}, &rtcp.SourceDescription{Chunks: []rtcp.SourceDescriptionChunk{{Source: 515151, Items: []rtcp.SourceDescriptionItem{{Type: rtcp.SDESCNAME, Text: "x"}}}}}}, batch...)
+		case 3:
+			batch = append(batch, foreign)
+			e.Fault("stacked_sender_reports")
+		}
+		raw, err := rtcp.Marshal(batch)
 		if err != nil {
 			panic(err)
 		}
